@@ -167,7 +167,12 @@ pub fn run(ctx: &Ctx, rep: &mut Report) {
     rep.bound("starts", J::s(format!("{} = {{enc,dec}} x {{rs,def,high,low}} x cfgs {:?}{}", sts.len(), VALID_CFGS, if ctx.thorough() { " x {soiled, fresh}" } else { " (soiled; (1,1,2) thorough only)" })));
 
     let mut obs_kinds: BTreeMap<String, u64> = BTreeMap::new();
-    for st in &sts {
+    // pass 1: merged BFS to `depth`; pass 2: the same search WITHOUT merging to a smaller depth, so
+    // that state a change keeps outside the digested fields cannot hide behind a merge
+    let unmerged_depth = if ctx.thorough() { 4 } else { 3 };
+    rep.bound("unmerged_depth", J::i(unmerged_depth));
+    for (st, merge) in sts.iter().map(|s| (s, true)).chain(sts.iter().filter(|s| s.soil != 0 || !ctx.thorough()).map(|s| (s, false))) {
+        let depth = if merge { depth } else { unmerged_depth };
         // BFS
         let mut seen: HashSet<(Spec, Option<u64>)> = HashSet::new();
         let init = run_history(&m, st.eng, st.decoder, st.kind, st.cfg.0, st.cfg.1, st.cfg.2, soil_opt(st.soil), &[]);
@@ -219,7 +224,7 @@ pub fn run(ctx: &Ctx, rep: &mut Report) {
                 if run.digest.is_none() {
                     continue; // object consumed by a (correctly) failing new(): leaf
                 }
-                if seen.insert((run.spec.clone(), run.digest)) {
+                if !merge || seen.insert((run.spec.clone(), run.digest)) {
                     rep.states += 1;
                     next.push((ops, run.spec));
                 }
